@@ -340,12 +340,15 @@ def answers_cached(E, rules):
     return r
 _KEY = {}
 
-def find_violations(E, ruleset, with_json=False, stats=None):
-    """ruleset: tuple of rules (canonical order). -> list of (law, kind, detail dict), deterministic order"""
+def find_violations(E, ruleset, with_json=False, stats=None, focus=None):
+    """ruleset: tuple of rules (canonical order). -> list of (law, kind, detail dict), deterministic order:
+    the first failing query per (law, target kind); with focus=(law, user index, perm, target) only
+    violations of that law on exactly that query."""
     out = []
     seen = set()
     def add(law, ui, p, t, text, order):
         kind = target_kind(t)
+        if focus is not None and (law, ui, p, tuple(t)) != focus: return
         if (law, kind) in seen: return
         seen.add((law, kind))
         out.append((law, kind, dict(user=USERS[ui], perm=p, target=list(t), order=[rule_text(r) for r in order], what=text)))
@@ -417,7 +420,8 @@ def simpler_sets(ruleset, perm):
         for c in cands:
             yield tuple(sorted(rs[:i] + [c] + rs[i + 1:]))
 
-def shrink(E, ruleset, law, kind, perm, with_json, budget=120):
+def shrink(E, ruleset, law, kind, perm, with_json, focus, budget=120):
+    """greedy simplification of the rule set while the same law still fails on the same query"""
     cur = tuple(sorted(ruleset))
     progress = True
     while progress and budget > 0:
@@ -425,14 +429,16 @@ def shrink(E, ruleset, law, kind, perm, with_json, budget=120):
         for cand in simpler_sets(cur, perm):
             budget -= 1
             if budget <= 0: break
-            if any(v[0] == law and v[1] == kind for v in find_violations(E, cand, with_json)):
+            if find_violations(E, cand, with_json, focus=focus):
                 cur = cand; progress = True
                 break
     return cur
 
-def signature_of(E, ruleset, law, kind, perm, with_json):
-    small = shrink(E, ruleset, law, kind, perm, with_json)
-    vs = [v for v in find_violations(E, small, with_json) if v[0] == law and v[1] == kind]
+def signature_of(E, ruleset, law, kind, d, with_json):
+    perm = d['perm']
+    focus = (law, USERS.index(d['user']), perm, tuple(d['target']))
+    small = shrink(E, ruleset, law, kind, perm, with_json, focus)
+    vs = find_violations(E, small, with_json, focus=focus)
     if not vs: raise core.HarnessError('shrunk rule set does not reproduce %s/%s: %r' % (law, kind, small))
     d = vs[0][2]
     classes = classify(small, d['user'], d['perm'], tuple(d['target']))
@@ -456,7 +462,7 @@ def judge_set(sub, E, ruleset, with_json, stats):
             sig = next(iter(memo['sigs'])); small, sd = memo['sigs'][sig]
             sub.count('disagreements_attributed_without_shrinking')
         else:
-            sig, small, sd = signature_of(E, ruleset, law, kind, d['perm'], with_json)
+            sig, small, sd = signature_of(E, ruleset, law, kind, d, with_json)
             memo['n'] += 1; memo['sigs'][sig] = (small, sd)
         sub.violation(sig, dict(rules=[list(r) for r in small], law=law, kind=kind, with_json=with_json,
                                 detail=sd, original=[list(r) for r in ruleset]),
